@@ -41,7 +41,12 @@ func verifUserNonce(t util.MerklePatriciaTrieI, addr string) (int64, bool) {
 
 // VerifC19_burn: one burn from an arbitrary state (arbitrary minimums, value, prior nonce
 // of the target address, another address with its own nonce, target possibly empty).
-func VerifC19_burn() {
+func VerifC19_burn() { verifC19Run(false) }
+
+// VerifC04_burn: the same step, asserting only who pays (C04 attribution rule).
+func VerifC04_burn() { verifC19Run(true) }
+
+func verifC19Run(onlyAuth bool) {
 	zcn := NewZCNSmartContract().(*ZCNSmartContract)
 	t := &transaction.Transaction{}
 	t.ClientID = verifBurner
@@ -77,6 +82,13 @@ func VerifC19_burn() {
 	_, err := zcn.Burn(t, payload, balances)
 
 	tr := balances.GetTransfers()
+	if onlyAuth {
+		if err == nil {
+			sym.Cover("burn-accepted")
+			symstate.AssertAuthorised(balances, t, ADDRESS)
+		}
+		return
+	}
 	if err != nil {
 		sym.Cover("burn-rejected")
 		sym.Assert(len(tr) == 0, "a rejected burn moves no tokens")
